@@ -329,6 +329,12 @@ func Generate(property, tier string, seed uint64) *Trace {
 	}
 	for i := 0; i < nRep; i++ {
 		rc := ReplicaCfg{Pruning: prs[r.Intn(len(prs))], MapSeed: r.Uint64()}
+		if i > 0 {
+			// a machine whose clock is wrong: seconds, minutes, months, decades; slow or fast
+			skews := []int64{0, int64(time.Second) * 3, -int64(time.Second) * 3, int64(time.Minute) * 11, -int64(time.Hour) * 5,
+				int64(time.Hour) * 24 * 400, -int64(time.Hour) * 24 * 365 * 20, int64(time.Hour) * 24 * 365 * 6}
+			rc.ClockSkewNs = skews[r.Intn(len(skews))]
+		}
 		if mode == "crash" && i == 1 {
 			rc.Pruning = prs[1+r.Intn(len(prs)-1)]
 			if r.Chance(0.15) {
